@@ -91,10 +91,10 @@ Proof. exact self_is_source_format. Qed.
 Theorem C36_source_tables :
   length dirhash_formats = 3%nat
   /\ dirhash_format_args =
-       [[src [114;117;110;116;105;109;101;46;86;101;114;115;105;111;110;40;41]];
-        [src [120;103;111;46;86;101;114;115;105;111;110]];
-        [src [102;110;97;109;101]; src [118;46;83;105;122;101;40;41];
-         src [118;46;77;111;100;84;105;109;101;40;41;46;85;110;105;120;78;97;110;111;40;41]]]
+       [[src [95;46;86;101;114;115;105;111;110;40;41]];
+        [src [95;46;86;101;114;115;105;111;110]];
+        [src [95]; src [95;46;83;105;122;101;40;41];
+         src [95;46;77;111;100;84;105;109;101;40;41;46;85;110;105;120;78;97;110;111;40;41]]]
   /\ dirhash_prefix_literals = [[USCORE]]
   /\ dirhash_skips_dirs = true.
 Proof. exact dirhash_tables. Qed.
